@@ -206,7 +206,11 @@ def check(pid, tier, seed, args):
             except Exception as e:
                 errors.append(('standin', "%s\n%s" % (e, traceback.format_exc())))
         if standin:
+            seen_keys = set()
             for k, fail in enumerate(standin.get('failures', [])):
+                if fail.get('key') in seen_keys:
+                    continue
+                seen_keys.add(fail.get('key'))
                 kf = [x for x in kfs if x.get('standin_case') and x['standin_case'] == fail.get('key')]
                 if kf:
                     known_hit.append((fail.get('key'), kf[0]))
